@@ -333,12 +333,14 @@ class DataFrameSchemaBackend(PolarsSchemaBackend):
 
         # Set column order: the schema's columns first. Columns that are not
         # in the schema are kept: removing them is what strict="filter" does.
+        frame_columns = get_lazyframe_column_names(check_obj)
         other_columns = [
-            col
-            for col in get_lazyframe_column_names(check_obj)
-            if col not in schema.columns
+            col for col in frame_columns if col not in schema.columns
         ]
-        check_obj = check_obj.select([*schema.columns, *other_columns])
+        # (an optional column that is absent is not added, and a regex
+        # column is not a column name: select what the frame has)
+        schema_columns = [col for col in schema.columns if col in frame_columns]
+        check_obj = check_obj.select([*schema_columns, *other_columns])
         return check_obj
 
     def strict_filter_columns(
